@@ -51,9 +51,14 @@ class Collector:
     MAX_SAMPLES = 4
     MAX_VIOL_PER_SIG = 3
 
-    def __init__(self, seed: int, shard: int, nshards: int, tier: str, deadline: float):
+    MIN_EVALS_BEFORE_EXPIRY = 8
+
+    def __init__(self, seed: int, shard: int, nshards: int, tier: str, deadline: float, hard_deadline: float | None = None):
         self.seed, self.shard, self.nshards, self.tier = seed, shard, nshards, tier
         self.deadline = deadline
+        # on a starved machine the first case alone (imports, set-up) can outlast the budget: a shard keeps going until
+        # it has evaluated a handful of cases, but never beyond the hard deadline
+        self.hard_deadline = deadline if hard_deadline is None else hard_deadline
         self.evaluations = 0
         self.nontrivial: set[str] = set()
         self.classes: collections.Counter = collections.Counter()
@@ -65,9 +70,10 @@ class Collector:
 
     # -- budget -------------------------------------------------------------------------------
     def expired(self) -> bool:
-        if time.monotonic() > self.deadline:
+        now = time.monotonic()
+        if now > self.deadline:
             self.budget_exhausted = True
-            return True
+            return self.evaluations >= self.MIN_EVALS_BEFORE_EXPIRY or now > self.hard_deadline
         return False
 
     # -- recording ----------------------------------------------------------------------------
@@ -165,12 +171,12 @@ def slug(s: str) -> str:
 # ------------------------------------------------------------------------------------------------
 
 def _worker(args):
-    modname, cfg, seed, shard, nshards, tier, deadline = args
+    modname, cfg, seed, shard, nshards, tier, deadline, hard_deadline = args
     import importlib
     import logging
     logging.disable(logging.CRITICAL)
     mod = importlib.import_module(modname)
-    col = Collector(seed, shard, nshards, tier, deadline)
+    col = Collector(seed, shard, nshards, tier, deadline, hard_deadline)
     try:
         mod.run_shard(col, cfg)
     except Exception:
@@ -222,7 +228,8 @@ def run_property(mod, tier: str, seed: int) -> int:
 
     # ---- generation -------------------------------------------------------------------------
     deadline = time.monotonic() + budget   # the budget covers generation only; the replay tier above is not charged to it
-    jobs = [(mod.__name__, cfg, seed, i, nshards, tier, deadline) for i in range(nshards)]
+    hard_deadline = deadline + max(2 * budget, 120.0)
+    jobs = [(mod.__name__, cfg, seed, i, nshards, tier, deadline, hard_deadline) for i in range(nshards)]
     procs = min(nshards, int(os.environ.get("VERIF_PROCS", "16")))
     if procs <= 1:
         results = [_worker(j) for j in jobs]
